@@ -25,63 +25,63 @@ type obligation struct {
 	text   string // clause / expression text
 
 	// results
-	status  string // "unsat" (discharged) | "sat" | "unknown" | "trivial"
-	solver  string
-	seconds float64
-	model   string
-	detail  string
+	status    string // "unsat" (discharged) | "sat" | "unknown" | "trivial"
+	solver    string
+	seconds   float64
+	model     string
+	detail    string
 	expectSat bool // vacuity guard: must be satisfiable
 }
 
 type deferredCall struct {
-	call *ssa.CallCommon
-	fn   Val
-	args []Val
+	call  *ssa.CallCommon
+	fn    Val
+	args  []Val
 	instr *ssa.Defer
 }
 
 type loopRun struct {
-	li       *loopInfo
-	lc       *loopContract
-	headSt   *state // state at loop head after havoc+assume (for decreases)
-	measure0 *T
-	modRefs  []modTarget // heap regions the loop may modify
-	allocMark *T // lowest reference allocated before the loop was entered
-	preSt    *state // state before havoc (for old-style references)
-	cuts     map[*ssa.BasicBlock]map[ssa.Value]Val // cut points already continued: recorded live values
-	cutFns   map[*ssa.BasicBlock]map[*Cell]Val
+	li        *loopInfo
+	lc        *loopContract
+	headSt    *state // state at loop head after havoc+assume (for decreases)
+	measure0  *T
+	modRefs   []modTarget                           // heap regions the loop may modify
+	allocMark *T                                    // lowest reference allocated before the loop was entered
+	preSt     *state                                // state before havoc (for old-style references)
+	cuts      map[*ssa.BasicBlock]map[ssa.Value]Val // cut points already continued: recorded live values
+	cutFns    map[*ssa.BasicBlock]map[*Cell]Val
 }
 
 type modTarget struct {
-	iface string // non-empty: abstract state of this interface type (token), no heap region
-	heap bool // object heap (else array heap)
-	typ  types.Type // pointee / element type
-	sort string // heap key; "map:<type>" for maps
-	ref  *T
-	path []pathEl // non-empty: only this part of the object (an embedded struct reached through an interior pointer)
-	cell *Cell    // non-nil: a local variable of the caller (no heap region)
-	all  bool     // every array (heap: every object) of this element type: allof(T)
+	iface string     // non-empty: abstract state of this interface type (token), no heap region
+	heap  bool       // object heap (else array heap)
+	typ   types.Type // pointee / element type
+	sort  string     // heap key; "map:<type>" for maps
+	ref   *T
+	path  []pathEl // non-empty: only this part of the object (an embedded struct reached through an interior pointer)
+	cell  *Cell    // non-nil: a local variable of the caller (no heap region)
+	all   bool     // every array (heap: every object) of this element type: allof(T)
 }
 
 type frame struct {
-	fn      *ssa.Function
-	key     string
-	env     map[ssa.Value]Val
-	cells   map[*ssa.Alloc]*Cell
-	defers  []*deferredCall
-	block   *ssa.BasicBlock
-	idx     int
-	pred    *ssa.BasicBlock
-	retTo   ssa.Value // call instruction in caller receiving results (nil for deferred / top)
-	loops   []*loopInfo
-	loopBy  map[*ssa.BasicBlock]*loopInfo
-	active  map[*ssa.BasicBlock]*loopRun
-	bindings []Val
-	fc      *funcContract
-	top     bool
-	inDefer bool // this frame was pushed by RunDefers
+	fn        *ssa.Function
+	key       string
+	env       map[ssa.Value]Val
+	cells     map[*ssa.Alloc]*Cell
+	defers    []*deferredCall
+	block     *ssa.BasicBlock
+	idx       int
+	pred      *ssa.BasicBlock
+	retTo     ssa.Value // call instruction in caller receiving results (nil for deferred / top)
+	loops     []*loopInfo
+	loopBy    map[*ssa.BasicBlock]*loopInfo
+	active    map[*ssa.BasicBlock]*loopRun
+	bindings  []Val
+	fc        *funcContract
+	top       bool
+	inDefer   bool // this frame was pushed by RunDefers
 	panicking bool
-	curLoop *loopInfo // loop whose contract is being evaluated
+	curLoop   *loopInfo // loop whose contract is being evaluated
 }
 
 func (fr *frame) clone() *frame {
@@ -254,36 +254,36 @@ func (m *machine) clone() *machine {
 }
 
 type executor struct {
-	prog   *program
-	specs  *specDB
-	c      *ctx
-	fc     *funcContract
-	fn     *ssa.Function
-	key    string
-	obls   []*obligation
-	ghostTypes map[string]types.Type
-	entry  *state
-	params map[string]Val
-	paths  int
-	work   []*machine
-	cellID int
-	instrNames map[ssa.Instruction]string
-	dropped map[string]int // dropped / abstracted calls, for the evidence
-	externs map[string]bool
-	axiomsUsed map[string]bool
-	globals map[string]*T
-	maxPaths int
-	implFor types.Type
-	ifaceContract *funcContract // contract being implemented (if implements)
-	errs []string
-	modSet []modTarget // function-level modifies (evaluated at entry)
-	srcText map[token.Pos]string
-	pkg *types.Package
-	assumeNotes map[string]bool
+	prog             *program
+	specs            *specDB
+	c                *ctx
+	fc               *funcContract
+	fn               *ssa.Function
+	key              string
+	obls             []*obligation
+	ghostTypes       map[string]types.Type
+	entry            *state
+	params           map[string]Val
+	paths            int
+	work             []*machine
+	cellID           int
+	instrNames       map[ssa.Instruction]string
+	dropped          map[string]int // dropped / abstracted calls, for the evidence
+	externs          map[string]bool
+	axiomsUsed       map[string]bool
+	globals          map[string]*T
+	maxPaths         int
+	implFor          types.Type
+	ifaceContract    *funcContract // contract being implemented (if implements)
+	errs             []string
+	modSet           []modTarget // function-level modifies (evaluated at entry)
+	srcText          map[token.Pos]string
+	pkg              *types.Package
+	assumeNotes      map[string]bool
 	recursionMeasure *T
-	curState *state
-	usesCivil bool
-	loopHeapLocals []modTarget
+	curState         *state
+	usesCivil        bool
+	loopHeapLocals   []modTarget
 }
 
 func newExecutor(prog *program, specs *specDB) *executor {
@@ -1307,6 +1307,9 @@ func (x *executor) runAts(m *machine, fr *frame, in ssa.Instruction) {
 		if at.stmt != txt || at.kind == "cut" {
 			continue
 		}
+		if at.nth > 0 && x.occurrenceOf(fr.fn, in, txt) != at.nth {
+			continue
+		}
 		at.used = true
 		if at.kind == "havoc" {
 			// ghost update: the abstract state named by the clause changes at this statement; the following
@@ -1674,4 +1677,26 @@ func (x *executor) enterCut(m *machine, fr *frame, cuts []*atClause) bool {
 	cov := x.oblige(m, "cover", "cut."+clauseName(cuts[0].cl, 0), tFalse, nil, "cut point reachable under its clauses")
 	cov.expectSat = true
 	return true
+}
+
+// occurrenceOf: the 1-based rank, in source order, of instruction `in` among the call/return instructions of its
+// function whose source text is txt (for `at "stmt" #k`)
+func (x *executor) occurrenceOf(fn *ssa.Function, in ssa.Instruction, txt string) int {
+	rank := 1
+	for _, b := range fn.Blocks {
+		for _, o := range b.Instrs {
+			switch o.(type) {
+			case *ssa.Call, *ssa.Return:
+			default:
+				continue
+			}
+			if o == in || !o.Pos().IsValid() || o.Pos() >= in.Pos() {
+				continue
+			}
+			if x.sourceOf(fn, o) == txt {
+				rank++
+			}
+		}
+	}
+	return rank
 }
